@@ -312,7 +312,7 @@ func c20Exec(w *fw.Worker, c fw.Case) fw.Result {
 func init() {
 	fw.Register(&fw.Property{
 		ID:   "C20",
-		Rule: "every psql and existing-sql entry point that takes an id, label or name (GetVertex, GetEdge, DelVertex, DelEdge, VertexLabelScan, GetVertexChannel, the four adjacency channels with ids and with edge-label lists, AddVertex/AddEdge id, label, endpoint and property value, AddGraph, DeleteGraph, Graph; existing-sql ids of the form table:key) x 42 client strings (quotes, doubled quotes, backslashes, comment markers, statement separators, $1, $$, %s, NUL, newline, unicode quotes, classic injection payloads, alone and embedded). The backends run over a recording database/sql driver (injected through verif-tagged constructors); each call is made once with a benign string and once with the hostile one, and the statements are compared by a PostgreSQL tokenizer: same number of statements, same token skeleton, and every literal / bound argument that carried the benign string decodes to exactly the client string. Non-trivial = the benign call sends at least one statement.",
+		Rule: "every psql and existing-sql entry point that takes an id, label or name (GetVertex, GetEdge, DelVertex, DelEdge, VertexLabelScan, GetVertexChannel, the four adjacency channels with ids and with edge-label lists, AddVertex/AddEdge id, label, endpoint and property value, AddGraph, DeleteGraph, Graph; existing-sql ids of the form table:key) x 47 client strings (dashes and dots inside names, quotes, doubled quotes, backslashes, comment markers, statement separators, $1, $$, %s, NUL, newline, unicode quotes, classic injection payloads, alone and embedded). The backends run over a recording database/sql driver (injected through verif-tagged constructors); each call is made once with a benign string and once with the hostile one, and the statements are compared by a PostgreSQL tokenizer: same number of statements, same token skeleton, and every literal / bound argument that carried the benign string decodes to exactly the client string. Non-trivial = the benign call sends at least one statement.",
 		Assumptions: []string{
 			"PostgreSQL lexical rules with standard_conforming_strings on (a backslash is an ordinary character inside '...')",
 			"a call that is refused before any statement is sent is safe",
